@@ -458,8 +458,9 @@ class UConstrained:
         return self.U('grad', [x, self.lam, self.kappa], self.n)
 
     def total_residual(self, x):
+        self.mark_total = len(self.ex.pc)     # path-condition entries from here on: this residual, its norm, the decisions taken on it
         r = self.U('res', [x, self.lam, self.kappa], self.n + self.m)
-        self.log.append(('total_residual', x, self.lam, self.kappa, r))
+        self.log.append(('total_residual', x, self.lam, self.kappa, r, self.mark_total))
         return r
 
     def constrained_residual(self, xl):
@@ -503,6 +504,25 @@ def norm_model(v):
                 w.reshape(-1)[i] = x
         v = w
     return NP.linalg.norm(v)
+
+
+def goal_tail(ex, mark, extra, name, atom, info=None):
+    """record a goal whose hypotheses are only the TAIL of the path condition (entries from index `mark` on) plus `extra`
+    (which must be members/consequences of the path condition): a subset of the path condition, hence sound; it keeps the
+    irrelevant iteration history away from the solver"""
+    if not ex.symbolic:
+        return ex.goal(name, atom, info=info)
+    saved = ex.pc
+    ex.pc = list(saved[mark:]) + [px._z(c) for c in extra]
+    try:
+        ex.goal(name, atom, info=info)
+        ex.goals[-1]['pc_full'] = list(saved) + [px._z(c) for c in extra]     # px.run_px re-decides a sat verdict under the full path condition (replayable model)
+    finally:
+        ex.pc = saved
+
+
+def idx_of(lst, e):
+    return [i for i, x in enumerate(lst) if x is e][0]
 
 
 def _zb(x):
@@ -591,10 +611,6 @@ def select_outer_for(fd):
     return fd.body[k], fd.body[:k]
 
 
-class SubSettings:
-    """stands for EquationSolver.Settings: settings_with_new_tol (real code, EquationSolver) rebuilds it field by field"""
-
-
 def sub_settings_sym(ex):
     from optimism import EquationSolver as ES
     tol = ex.real('sub_tol')
@@ -665,7 +681,7 @@ def make_al_step_harness(n, m, it, newton_only, second_order):
         ex.goal('second_order_update_exactly_when_configured', Holds(len(lus) == (1 if want2 else 0)))
         subs = [e for e in log if e[0] == 'sub_solver']
         ex.goal('sub_problem_solved_exactly_when_not_newton_only', Holds(len(subs) == (0 if newton_only else 1)))
-        k_sub = log.index(subs[0]) if subs else len(log)
+        k_sub = idx_of(log, subs[0]) if subs else len(log)
         trials = [e for e in log[:k_sub] if e[0] == 'total_residual']
         x_ls, lam_ls = x0, lam_start     # state after the line search
         accepted = False
@@ -685,12 +701,27 @@ def make_al_step_harness(n, m, it, newton_only, second_order):
                 ex.goal('line_search_trial_multipliers_are_saved_lam_plus_scaled_dl', Eq(px.unwrap(tr[2]), px.unwrap(lam_start + dl)),
                         info='multipliers not restored after a rejected trial (trial %d)' % j)
                 dx, dl = dx * 0.2, dl * 0.2
+            # hypotheses for statements about the LAST trial: the path-condition entries from its evaluation up to the next residual evaluation
+            k_last = idx_of(log, trials[-1])
+            nxt = [e[5] for e in log[k_last + 1:] if e[0] == 'total_residual']
+            lo, hi = trials[-1][5], (nxt[0] if nxt else None)
+
+            def goal_last_trial(name, atom):
+                if not ex.symbolic:
+                    return ex.goal(name, atom)
+                saved = ex.pc
+                ex.pc = list(saved[lo:hi]) + [px._z(err0 >= 0)]
+                try:
+                    ex.goal(name, atom)
+                    ex.goals[-1]['pc_full'] = list(saved)
+                finally:
+                    ex.pc = saved
             if accepted:
                 x_ls, lam_ls = y_last, trials[-1][2]
-                ex.goal('line_search_accepts_only_strict_decrease_of_total_residual_norm', Lt(px.unwrap(loc['trialErrorNorm']), px.unwrap(err0)))
-                ex.goal('accepted_trial_norm_is_norm_of_its_total_residual', Eq(px.unwrap(loc['trialErrorNorm'] * loc['trialErrorNorm']), px.unwrap(NP.dot(trials[-1][4], trials[-1][4]))))
+                goal_last_trial('line_search_accepts_only_strict_decrease_of_total_residual_norm', Lt(px.unwrap(loc['trialErrorNorm']), px.unwrap(err0)))
+                goal_last_trial('accepted_trial_norm_is_norm_of_its_total_residual', Eq(px.unwrap(loc['trialErrorNorm'] * loc['trialErrorNorm']), px.unwrap(NP.dot(trials[-1][4], trials[-1][4]))))
             else:
-                ex.goal('all_trials_rejected_means_no_decrease', Le(px.unwrap(err0 * err0), px.unwrap(NP.dot(trials[-1][4], trials[-1][4]))))
+                goal_last_trial('all_trials_rejected_means_no_decrease', Le(px.unwrap(err0 * err0), px.unwrap(NP.dot(trials[-1][4], trials[-1][4]))))
         else:
             ex.goal('no_line_search_without_second_order_update', Holds(len(trials) == 0))
         # ---- state handed on after the (possible) line search
@@ -712,7 +743,7 @@ def make_al_step_harness(n, m, it, newton_only, second_order):
         want_up = bool(lus) and (bool(lus[0][5] != 0) or len(trials) == 10)
         ex.goal('preconditioner_refreshed_iff_gmres_failed_or_last_trial_reached', Holds(len(ups) == (1 if want_up else 0)))
         if ups:
-            ex.goal('preconditioner_refreshed_at_line_search_result_before_sub_solve', Holds(ups[0][1] is x_ls and log.index(ups[0]) < k_sub))
+            ex.goal('preconditioner_refreshed_at_line_search_result_before_sub_solve', Holds(ups[0][1] is x_ls and idx_of(log, ups[0]) < k_sub))
         # ---- penalties
         for i in range(m):
             ex.goal('penalty_never_decreases', Le(px.unwrap(kap0[i]), px.unwrap(obj.kappa[i])))
@@ -721,9 +752,10 @@ def make_al_step_harness(n, m, it, newton_only, second_order):
             ex.goal('never_returns_in_newton_only_mode', Holds(not newton_only))
             ex.goal('returned_point_is_sub_solver_output', Holds(val is xs))
             ex.goal('callback_at_return_with_returned_point', Holds(log[-1][0] == 'callback' and log[-1][1] is val and log[-1][2] is pNew and log[-1][3] is obj.lam))
+            mark = getattr(obj, 'mark_total', 0)
             R = obj.U('res', [val, obj.lam, obj.kappa], n + m)
-            ex.goal('return_only_if_total_residual_norm_with_current_multipliers_below_tol', Lt(px.unwrap(NP.dot(R, R)), tol2),
-                    info='returned x whose total residual (evaluated with the multipliers at return) is not below tol')
+            goal_tail(ex, mark, [S.tol > 0], 'return_only_if_total_residual_norm_with_current_multipliers_below_tol', Lt(px.unwrap(NP.dot(R, R)), tol2),
+                      info='returned x whose total residual (evaluated with the multipliers at return) is not below tol')
             for i in range(m):
                 ex.goal('multipliers_nonnegative_at_return', Le(0.0, px.unwrap(obj.lam[i])))
         else:
@@ -732,10 +764,11 @@ def make_al_step_harness(n, m, it, newton_only, second_order):
             if not newton_only:
                 for i in range(m):
                     ex.goal('multipliers_nonnegative_at_end_of_iteration', Le(0.0, px.unwrap(obj.lam[i])))
+                mark = getattr(obj, 'mark_total', 0)
                 R = obj.U('res', [loc['x'], obj.lam, obj.kappa], n + m)
                 RR = px.unwrap(NP.dot(R, R))
-                ex.goal('no_return_means_not_converged', Le(tol2, RR))
-                ex.goal('inv_errorNorm_is_norm_of_total_residual_at_new_state', Eq(px.unwrap(loc['errorNorm'] * loc['errorNorm']), RR))
+                goal_tail(ex, mark, [S.tol > 0], 'no_return_means_not_converged', Le(tol2, RR))
+                goal_tail(ex, mark, [S.tol > 0], 'inv_errorNorm_is_norm_of_total_residual_at_new_state', Eq(px.unwrap(loc['errorNorm'] * loc['errorNorm']), RR))
                 ex.goal('inv_iterate_is_sub_solver_output', Holds(loc['x'] is xs))
                 for i in range(m):
                     ex.goal('inv_ncpError_nonnegative', Le(0.0, px.unwrap(loc['ncpError'][i])))
@@ -987,7 +1020,7 @@ def o5_bco(h):
             ats.append(Eq(o['resid'], o['grad_xb'], name='get_residual_is_gradient_at_scaled_point'))
             ats.append(Eq(o['total'], o['tot_xb'], name='get_total_residual_is_total_residual_at_scaled_point'))
             return asm, ats
-        c.prove('with_precond' if wp else 'no_precond', spec, cap=60)
+        c.prove('with_precond' if wp else 'no_precond', spec, cap=150)
 
 
 class BoundDriverObjective:
@@ -1243,6 +1276,7 @@ def make_convex_harness(max_iters, with_failure):
                     ex.pc = tail + [px._z(tol > 0), z3.Not(cuts[2][1].neg(0))]
                     try:
                         ex.goal(nm, at)
+                        ex.goals[-1]['pc_full'] = list(saved)
                     finally:
                         ex.pc = saved
                 else:
@@ -1257,7 +1291,11 @@ def make_convex_harness(max_iters, with_failure):
                 ex.pc = hyps
             try:
                 ex.goal('returned_point_is_constrained_minimiser_within_80_tol_over_a', Le(sym.v_abs(sym.v_sub(sym.v_mul(px.unwrap(a), px.unwrap(x)), axs)), px.unwrap(80.0 * tol), scale=zt))
+                if ex.symbolic:
+                    ex.goals[-1]['pc_full'] = list(saved)
                 ex.goal('returned_multiplier_within_210_tol_of_kkt_multiplier', Le(sym.v_abs(sym.v_sub(px.unwrap(lam), lstar)), px.unwrap(210.0 * tol), scale=zt))
+                if ex.symbolic:
+                    ex.goals[-1]['pc_full'] = list(saved)
             finally:
                 if ex.symbolic:
                     ex.pc = saved
@@ -1298,3 +1336,22 @@ def o6_3f(h):
     _o6_notes(h, 3, True)
     px.run_px(h, 'convex', make_convex_harness(3, True), cap=60, div_mode='goal', sqrt_mode='goal', feas_ms=300,
               expect_goals=['returned_point_is_constrained_minimiser_within_80_tol_over_a', 'returned_multiplier_within_210_tol_of_kkt_multiplier'])
+
+
+DESIGNED_NOT_REGISTERED = [
+    ('O1.total_residual_instance[bilinear constraint, monolithic]',
+     'norm(total_residual) < tol => per-constraint KKT bounds as ONE query on the instance with the bilinear constraint and the cubic objective: unknown at 120 s '
+     'per goal (core and nlsat) even with the gradient entries named; registered instead as the exact wiring identities on that instance (O1.total_residual_wiring) + '
+     'the norm argument on the real fischer_burmeister (O1.norm_to_components) in both tiers, and as a monolithic query on the affine/quadratic instance in the thorough tier (170 s)'),
+    ('O2.kappa_monotone_only_if_penalty_scaling_ge_1',
+     'the converse direction (penalty_scaling < 1 admits a decrease) is an existence statement; registered: for penalty_scaling >= 1 and kappa > 0 no penalty decreases, '
+     'and the exact growth rule kappa_i <- penalty_scaling*kappa_i iff poor progress and solver success'),
+    ('O4.al_iteration[n=2,m=2] for it in {1, 2, 7} and O4.lam_nonnegative_in_newton_only_mode',
+     'n=2/m=2 is registered for it in {0, 3} only (6 shards each, ~1-5 CPU-min per shard; the other indices differ by the tolerance-ramp constant only and are covered for n=m=1); '
+     'in use_newton_only mode the multipliers after an accepted second-order trial are lam + dl with an arbitrary (stubbed) dl, so lam >= 0 at the end of the iteration '
+     'is not claimed there (the design restricts it to use_newton_only=False); that mode also never returns (goal never_returns_in_newton_only_mode)'),
+    ('O6.bounded_convex[iters>=4]',
+     'with the default settings the iteration with index 3 enters the second-order update: the real linear_update drives scipy GMRES through LinearOperator callbacks and cannot run on '
+     'proxies; with it stubbed the setting is O4\'s. Termination within the bound is not forced by the sub-solver contract (tolerance ramp 100^(1-it/3) on the first three sub-solves), '
+     'so the registered claim is: every return within 3 unrolled iterations is the constrained minimiser / KKT multiplier up to 80 / 210 tol; the NameError exit at the bound carries no claim'),
+]
